@@ -279,7 +279,7 @@ fn src_eq(got: &Option<std::borrow::Cow<Name>>, want: &Option<MName>) -> bool {
     }
 }
 
-const LOOKUP_TYPES: [u16; 6] = [mr::T_A, mr::T_AAAA, mr::T_NS, mr::T_CNAME, mr::T_TXT, 99];
+const LOOKUP_TYPES: [u16; 9] = [mr::T_A, mr::T_AAAA, mr::T_NS, mr::T_CNAME, mr::T_TXT, 99, 43, 47, 64];
 
 pub fn oracle_lookup(case: &ZoneCase, st: &mut Stats) -> Verdict {
     let (zone, model, _) = build(case, st, false)?;
@@ -451,6 +451,9 @@ pub fn zone_label() -> impl Strategy<Value = Vec<u8>> {
         2 => Just(b"ns".to_vec()),
         1 => Just(b"c".to_vec()),
         1 => Just(b"A".to_vec()),
+        // octets >= 0x80 next to letters (also Z/z, the last letter): case folding must leave them and their neighbours alone
+        1 => (prop_oneof![Just(0xdbu8), Just(0xffu8), Just(0x80u8), 0xc0u8..=0xff], prop_oneof![Just(b'Z'), Just(b'z'), Just(b'A'), Just(b'a'), Just(b'M')], any::<bool>()).prop_map(|(hi, letter, after)| if after { vec![letter, hi] } else { vec![hi, letter] }),
+        1 => (prop_oneof![Just(b'Z'), Just(b'z'), Just(b'@'), Just(b'['), Just(b'`'), Just(b'{')], 1usize..12).prop_map(|(c, n)| vec![c; n]),
     ]
 }
 
